@@ -54,12 +54,20 @@ META = dict(
          'equal, every flat index held once, every bitmap-linked value under the same owner in flat text, bitmap_links, node '
          'tree, nested JSON and nested text of every subset) on generated messages of every construct, messages whose subsets '
          'have different bitmaps / attribute counts / replication counts (all five bitmap operators, equal descriptor lists '
-         'with different links included), the shapes the property names and the sample files. The two TEXT formats are not modelled in Lean: they are decided by the oracle only.',
+         'with different links included), the shapes the property names and the sample files. The two TEXT formats are modelled in '
+         'Lean line by line (View/Text.lean: flat text columns 74/64 + value at column 81, nested text indentation / attribute '
+         'and factor lines, the two converters with their fixed-column slicing and startswith tests; value tokens and table names '
+         'abstract): Props/C09Text.lean proves for all flat lists and all names that the flat text converter returns the printed '
+         'values and that the nested text converter applied to the rendered wired tree returns the flat values under the '
+         'decidable conditions sideOK + textOK (_partial for the same reason as nested JSON), with proved counterexamples '
+         'outside them; the hypotheses on Python repr / literal_eval tokens (ReprOK) are tested on every value met, the model\'s '
+         'lines are compared with the implementation\'s literally (value token by value) incl. hostile names.',
     technique='Lean 4 theorems (mutual structural induction over the template and the node tree) + checked model/implementation '
               'correspondence + property oracle on the implementation',
     note='description strings (table text) are outside the model; meaning nodes surviving from an earlier subset and shared '
-         'mutable nodes are modelled by value; flat text and nested text renderers/converters are covered by the oracle, not '
-         'by theorems.',
+         'mutable nodes are modelled by value; in the text formats the value tokens (Python repr / ast.literal_eval) and the '
+         'table names are parameters with stated hypotheses (tested per value), section headers and the non-template sections '
+         'of the text renderings are outside the model (oracle only).',
 )
 
 # ---------------------------------------------------------------------------------------------
@@ -368,6 +376,9 @@ def run(ctx):
         run_bitmaps(ctx, drv, treq, pool)
         run_generated(ctx, drv, treq, pool)
         run_corpus(ctx, drv, pool)
+        # the two text formats: model (View/Text.lean) vs implementation, line by line, and the two converters
+        from harness.props import c09text
+        c09text.run_text(ctx, drv=drv, pool=pool)
     finally:
         pool.terminate()
 
@@ -586,6 +597,9 @@ def replay(ctx, path):
     if 'undischarged' in rep:
         print('replay: proof obligations are re-checked by the audit above')
         return
+    if 'format' in rep:
+        from harness.props import c09text
+        return c09text.replay_text(ctx, rep)
     if rep.get('message_hex'):
         b = bytes.fromhex(rep['message_hex'])
         treq = tables_io.group_request()
